@@ -30,6 +30,9 @@ const (
 	FaultClose   = "close"   // close the association instead of sending downlink message K
 	FaultGarbage = "garbage" // send ff ff ff instead of downlink message K
 	FaultTrunc   = "trunc"   // send the first half of downlink message K
+	// FaultBigGarbage: send 3000 octets of ff instead of downlink message K (more than the 2048-octet receive buffer
+	// of the procedures holds: the read is cut at the buffer size, the octets are still undecodable)
+	FaultBigGarbage = "biggarbage"
 	FaultOther   = "other"   // send a decodable NGAP message of a type the emulator never expects (Error Indication)
 	FaultCloseUL = "closeul" // close the association right after receiving uplink message K, answering nothing
 	// FaultSilent: from downlink message K on the peer neither answers nor closes. This is OUTSIDE the property's fault
@@ -55,7 +58,7 @@ func ParseFault(s string) (Fault, error) {
 		return Fault{}, fmt.Errorf("fault index %q", s[:i])
 	}
 	switch s[i+1:] {
-	case FaultClose, FaultGarbage, FaultTrunc, FaultOther, FaultCloseUL, FaultSilent:
+	case FaultClose, FaultGarbage, FaultTrunc, FaultOther, FaultCloseUL, FaultSilent, FaultBigGarbage:
 		return Fault{Kind: s[i+1:], K: k}, nil
 	}
 	return Fault{}, fmt.Errorf("fault kind %q", s[i+1:])
@@ -519,6 +522,8 @@ func (r *runner) send(d dlMsg) bool {
 			return false
 		case FaultGarbage:
 			out, m.Ngap, m.Nas = []byte{0xff, 0xff, 0xff}, "?", ""
+		case FaultBigGarbage:
+			out, m.Ngap, m.Nas = bytes.Repeat([]byte{0xff}, 3000), "?", ""
 		case FaultTrunc:
 			out, m.Ngap, m.Nas = d.bytes[:len(d.bytes)/2], "?", ""
 		case FaultOther:
